@@ -1137,7 +1137,9 @@ def replace_dict_values(name: str,
     """
     new_dict = {}
     for n, v in dictionary.items():
-        if isinstance(v, np.ndarray):
+        # Only a (non-empty) 1D array has a range representation. Other
+        # arrays are formatted as they are
+        if isinstance(v, np.ndarray) and v.ndim == 1 and v.size > 0:
             v = "[{0}]".format(get_mixed_range_representation(
                 v, filename_mode))
         new_dict[n] = v
